@@ -15,11 +15,11 @@ import (
 func init() {
 	register(&PropDef{
 		ID: "C07", Level: "exploration", Quick: 48000, Thorough: 800000, QuickCap: 110,
-		Rule: "each run = one store, 2-4 client tasks x 1-4 HTTP requests on 1-2 object names: conditional and unconditional uploads (media, multipart, resumable), patches conditioned on metageneration, deletes, compose and copy (same bucket and across buckets) into the contended name (static sources), metadata and media reads; the seeded scheduler interleaves them at every store access (Store seam), every internal step of the per-object lock map and the file store's write steps; 0-1 request contexts are cancelled at a scheduled instant; the history (global event stamps) is checked per object with porcupine against the object model with generations as opaque fresh tokens, plus the single-winner invariant for N writers conditioned on one generation; distinct = trace + response hash; non-trivial = at least one preemption",
-		Real: []string{"gcsemu handlers through the real mux, gcsutil.TransientLockMap, memstore (btree under its mutexes), filestore (content, mtime, sidecar as separate system calls)"},
-		Stub: []string{"HTTP connections (recorder)", "Go channel blocking in the lock map (wait-until)", "wall clock (strictly increasing, so generations are distinct; the stalled clock belongs to C10)"},
+		Rule:   "each run = one store, 2-4 client tasks x 1-4 HTTP requests on 1-2 object names: conditional and unconditional uploads (media, multipart, resumable), patches conditioned on metageneration, deletes, compose and copy (same bucket and across buckets) into the contended name (static sources), metadata and media reads; the seeded scheduler interleaves them at every store access (Store seam), every internal step of the per-object lock map and the file store's write steps; 0-1 request contexts are cancelled at a scheduled instant; the history (global event stamps) is checked per object with porcupine against the object model with generations as opaque fresh tokens, plus the single-winner invariant for N writers conditioned on one generation; distinct = trace + response hash; non-trivial = at least one preemption",
+		Real:   []string{"gcsemu handlers through the real mux, gcsutil.TransientLockMap, memstore (btree under its mutexes), filestore (content, mtime, sidecar as separate system calls)"},
+		Stub:   []string{"HTTP connections (recorder)", "Go channel blocking in the lock map (wait-until)", "wall clock (strictly increasing, so generations are distinct; the stalled clock belongs to C10)"},
 		Assume: []string{"a resumable upload is one operation whose window spans all its requests", "listings are not part of this workload", "porcupine Unknown is counted, never reported"},
-		Run: runC07,
+		Run:    runC07,
 	})
 	expectedProbes["C07"] = []string{"c07.same_generation_writers", "c07.patch_race", "c07.delete_vs_upload", "c07.reader_among_writers", "c07.lock_waited", "c07.cancel_fired", "c07.porcupine_ok", "c07.compose_vs_upload", "c07.cross_bucket_copy", "c07.append_by_compose"}
 }
